@@ -1,3 +1,3 @@
 SPECIFICATION Spec
-INVARIANTS Lossless PasteMarks
+INVARIANTS Lossless PasteMarks KeysJudged
 CHECK_DEADLOCK FALSE
